@@ -139,6 +139,7 @@ func (l *leader) tryTransfer() {
 			println(l, target, ">>", req)
 		}
 		pool := l.getConnPool(target)
+		verifPoint("timeoutNow.send", l.Raft, target, req, l.transfer.respCh)
 		go func(ch chan<- rpcResponse, deadline time.Time) {
 			resp := &timeoutNowResp{}
 			err := pool.doRPC(req, resp, deadline)
